@@ -74,17 +74,24 @@ func ValidBytes(c int, rejected bool) []byte {
 		authn = UnknownMechanism
 	}
 
+	// contents 16..31 are "twins" of 0..15: the same rule ids with other paths (an update that changes only rule bodies)
+	pfx := "c"
+	if c >= 16 {
+		pfx = "t"
+		c -= 16
+	}
+
 	switch c % 3 {
 	case 0: // JSON (is YAML as well)
 		return []byte(fmt.Sprintf(
-			`{"version": %q, "name": "rs%d", "rules": [{"id": "r%d", "match": {"routes": [{"path": "/c%d/:x"}]}, "execute": [{"authenticator": %q}]}]}`,
-			version, c, c, c, authn))
+			`{"version": %q, "name": "rs%d", "rules": [{"id": "r%d", "match": {"routes": [{"path": "/%s%d/:x"}]}, "execute": [{"authenticator": %q}]}]}`,
+			version, c, c, pfx, c, authn))
 	case 1:
-		return []byte(fmt.Sprintf("version: %q\nname: rs%d\nrules:\n- id: r%d\n  match:\n    routes:\n      - path: /c%d/:x\n  execute:\n    - authenticator: %s\n",
-			version, c, c, c, authn))
+		return []byte(fmt.Sprintf("version: %q\nname: rs%d\nrules:\n- id: r%d\n  match:\n    routes:\n      - path: /%s%d/:x\n  execute:\n    - authenticator: %s\n",
+			version, c, c, pfx, c, authn))
 	default: // two rules, a comment
-		return []byte(fmt.Sprintf("# content %d\nversion: %q\nrules:\n- id: r%d\n  match:\n    routes:\n      - path: /c%d\n  execute:\n    - authenticator: %s\n- id: q%d\n  match:\n    routes:\n      - path: /d%d/**\n    methods: [GET]\n  execute:\n    - authenticator: a\n    - authorizer: b\n",
-			c, version, c, c, authn, c, c))
+		return []byte(fmt.Sprintf("# content %d\nversion: %q\nrules:\n- id: r%d\n  match:\n    routes:\n      - path: /%s%d\n  execute:\n    - authenticator: %s\n- id: q%d\n  match:\n    routes:\n      - path: /d%d/**\n    methods: [GET]\n  execute:\n    - authenticator: a\n    - authorizer: b\n",
+			c, version, c, pfx, c, authn, c, c))
 	}
 }
 
